@@ -38,9 +38,9 @@ Inductive invk := InvNull | InvCall | InvDirect | InvOther.
                     call-template or has the shortcut (true: the code since 9c1f5e3), or `this`
                     in every case (false: the code before)
    v_global_null    VariablesStack::findXObject pushes a null current rule around the evaluation of
-                    a top-level variable (false: the code now - the stacks are used as they are)
+                    a top-level variable (true: since fbf271b, by an RAII helper; false: the stacks are used as they are)
    v_global_direct  no direct-template shortcut is set up for a top-level variable (the template sees
-                    the xsl:call-template as its invoker; false: the code now - the template of the
+                    the xsl:call-template as its invoker: since 59004ef; false: the template of the
                     shortcut is run by execute() and sees its own parent, null) *)
 Record variant := { v_call_keeps : bool; v_global_null : bool; v_global_direct : bool }.
 
